@@ -10,6 +10,7 @@ acyclic apart from self-loops every declaration comes after everything it mentio
 -/
 import GooseVerif.Lemmas.Deps
 import GooseVerif.Gen.PrinterFacts
+import GooseVerif.Lemmas.Names
 import GooseVerif.Expected.PrinterFacts
 
 namespace GooseVerif.Props.C04
@@ -19,6 +20,25 @@ open GooseVerif.Model.Deps
 depth-first emission with the generated set marked before recursion), `sortedFiles` and the
 dependency tracker are, up to formatting, what Model/Deps.lean was written from. -/
 theorem emission_facts_ok : GooseVerif.Gen.Printer.emission = GooseVerif.Expected.Printer.emission := rfl
+
+/-- `coq.MethodName` (receiver type ++ "__" ++ method) is the committed expectation. -/
+theorem naming_facts_ok : GooseVerif.Gen.Printer.naming = GooseVerif.Expected.Printer.naming := rfl
+
+/-- Distinct (type, method) pairs get distinct Coq names, as long as type names contain no double
+underscore and do not end in an underscore. -/
+theorem method_names_distinct (t t' m m' : List Char) (h : Lemmas.Names.Clean t) (h' : Lemmas.Names.Clean t')
+    (e : Lemmas.Names.methodName t m = Lemmas.Names.methodName t' m') : t = t' ∧ m = m' :=
+  Lemmas.Names.methodName_injective t t' m m' h h' e
+
+/-- A function whose name contains no double underscore cannot collide with a method's name. -/
+theorem function_and_method_names_distinct (f t m : List Char) (hf : Lemmas.Names.splitDU f = none)
+    (ht : Lemmas.Names.Clean t) : f ≠ Lemmas.Names.methodName t m :=
+  Lemmas.Names.function_name_differs f t m hf ht
+
+/-- Without that condition names do collide (known finding `method-name-collision`). -/
+theorem unclean_names_collide :
+    Lemmas.Names.methodName "T_".toList "x".toList = Lemmas.Names.methodName "T".toList "_x".toList :=
+  Lemmas.Names.unclean_names_collide.1
 
 /-- Every declaration is emitted exactly once, whatever the dependencies (including cycles and
 self-dependencies): the emission order is a permutation of `0 .. n-1`. -/
